@@ -196,6 +196,8 @@ class SimSelector:
         w.syscall()
         if self._closed:
             raise ValueError('I/O operation on closed epoll object')
+        if w.select_hook is not None:
+            w.select_hook(self)
         ready = self._ready()
         if not ready and (timeout is None or timeout > 0):
             w.block(lambda: bool(self._ready()), timeout, 'select')
